@@ -71,6 +71,30 @@ def bottleneck_cases(draw):
             "sample_seed": draw(st.integers(0, 2**16)), "bottleneck": who}
 
 
+@st.composite
+def deep_cases(draw):
+    """one matmul on four memory levels with a spatial fanout: templates with 11 or more tile-shape symbols (stride0 ..
+    stride10+), where the order of a formula's arguments is no longer the lexicographic order of the symbol names"""
+    es, rvs = G.matmul_ab()
+    bounds = {rv: draw(st.sampled_from([2, 4, 4])) for rv in rvs}
+    bits = 8
+    rw = lambda e, tp: [e, draw(st.sampled_from(tp))]
+    nodes = [{"type": "Memory", "name": "Main", "size": "inf", "keep": "All", "may_keep": "All",
+              "read": rw(8, ["inf", 2]), "write": rw(8, ["inf", 2]), "leak": 0},
+             {"type": "Memory", "name": "L2", "size": "inf", "keep": "All", "may_keep": "All",
+              "read": rw(4, ["inf", 4]), "write": rw(4, ["inf", 4]), "leak": draw(st.sampled_from([0, 0.5]))},
+             {"type": "Memory", "name": "GLB", "size": "inf", "keep": draw(st.sampled_from(["All", "Nothing"])), "may_keep": "All",
+              "read": rw(2, ["inf", 4]), "write": rw(2, ["inf", 4]), "leak": 0},
+             {"type": "Container", "name": "PEs", "spatial": [{"name": "X", "fanout": draw(st.sampled_from([2, 4]))}]},
+             {"type": "Memory", "name": "Reg", "size": "inf", "keep": draw(st.sampled_from(["All", "Nothing"])), "may_keep": "All",
+              "read": [0.5, "inf"], "write": [0.5, "inf"], "leak": 0},
+             {"type": "Compute", "name": "MAC", "compute": [1, draw(st.sampled_from([1, 2]))], "leak": 0}]
+    sp = {"shape": "matmul-deep", "einsums": es, "bounds": bounds, "bits": {"All": bits}, "n_instances": 1, "nodes": nodes,
+          "mapper": {"metrics": "ENERGY|LATENCY"}}
+    return {"spec": sp, "picks": draw(st.lists(st.integers(0, 10_000), min_size=2, max_size=3, unique=True)),
+            "sample_seed": draw(st.integers(0, 2**16)), "deep": True}
+
+
 def _tree(job_mapping, row):
     tree = []
     for n in job_mapping.nodes:
@@ -261,6 +285,7 @@ def shards(tier, seed):
 def run_shard(shard, col):
     drive(cases(), check, n=shard["n"], seed=hash32(shard["seed"], "C07", shard["k"]), col=col)
     drive(bottleneck_cases(), check, n=shard["n"], seed=hash32(shard["seed"], "C07b", shard["k"]), col=col)
+    drive(deep_cases(), check, n=max(1, shard["n"] // 2), seed=hash32(shard["seed"], "C07d", shard["k"]), col=col)
 
 
 def replay(desc, col):
